@@ -138,6 +138,7 @@ def policy_of(p):
 
 _EAGER = {}
 TERMS = {}  # main process: term hash -> Coq term
+ALL_LINES = set()  # main process: executed (file, line) of the traced library files
 _SENT = set()
 _LINES = set()
 
@@ -179,6 +180,8 @@ def warm(_):
     d = {"classes": [{"attrs": [[0, "attr", 2, True, True, True, "list"], [1, "plain", 0, True, True, True, "int"]],
                       "key": None, "frozen": False, "new": False}], "sub": None}
     run_one((d, [["helper", 0]], {"kind": "preempt", "first": 0, "switch": []}))
+    _SENT.clear()
+    _LINES.clear()
     return True
 
 
@@ -190,6 +193,7 @@ def run_jobs(jobs, pool):
     for r in res:
         if r["term"] is not None:
             TERMS[r["h"]] = r["term"]
+        ALL_LINES.update(tuple(x) for x in r["lines"])
     return res
 
 
@@ -449,13 +453,12 @@ def main2(tier, replay, pool):
         i = invalid[0]
         chk.violation("generated use raises on the eager class (generator defect): %r" % (jobs[i][:2],),
                       {"classes": jobs[i][0], "uses": jobs[i][1], "policy": jobs[i][2], "kind": "generator"}, no_input=True)
-    kinds, usek, pre, lines = {}, {}, {}, set()
+    kinds, usek, pre, lines = {}, {}, {}, ALL_LINES
     for (g, _), j, r in zip(meta, jobs, results):
         kinds[g] = kinds.get(g, 0) + 1
         for u in j[1]:
             usek[u[0]] = usek.get(u[0], 0) + 1
         pre[min(r["preempted"], 9)] = pre.get(min(r["preempted"], 9), 0) + 1
-        lines.update(tuple(x) for x in r["lines"])
     forms = {}
     for j in jobs:
         for c in j[0]["classes"]:
